@@ -76,6 +76,7 @@ reg("C03",
         funcs=["parse_tls_plaintext", "parse_tls_raw_record"] + _RWH, timeout=600)
       for n in ("ccs_0", "ccs_1", "ccs_2", "alert_1", "alert_2", "alert_3", "appdata_0", "appdata_1", "appdata_3",
                 "heartbeat_2", "heartbeat_3", "heartbeat_4", "heartbeat_6")],
+    H("c03", "c03_two_heartbeat_free_header_len", bounds="two-step heartbeat, payload <= 7 B symbolic length, header length symbolic over all 65536 values", funcs=_RWH + ["parse_tls_message_heartbeat"]),
     H("c03", "c03_handshake_list_wiring", timeout=1500, mem=20, bounds="handshake record payload <= 9 B symbolic length (<= 2 messages), types and 24-bit lengths symbolic; all 15 body parsers stubbed",
       stubs=["15 parse_tls_handshake_msg_* body parsers (marker stubs)"], funcs=_RWH + ["parse_tls_message_handshake"]),
     )
@@ -277,6 +278,8 @@ reg("C10",
       stubs=["parse_dtls_record_with_header"], funcs=["parse_dtls_plaintext_record"]),
     H("c10", "c10_record_wiring_cap", bounds="16660-byte zero array, symbolic 13-byte header, symbolic length; content dispatcher stubbed",
       stubs=["parse_dtls_record_with_header"], funcs=["parse_dtls_plaintext_record"], timeout=600),
+    H("c10", "c10_hs_dispatch_wiring", bounds="<= 16 B symbolic length; handshake type over all 256 values, length / offset / fragment_length over their full 24-bit ranges; six body parsers stubbed",
+      stubs=["6 DTLS handshake body parsers (marker stubs)"], funcs=_DH, timeout=900, mem=12),
     H("c10", "c10_hs_serverdone", bounds="16 B input, type 14 concrete, length/seq/offset/fragment_length symbolic over full 24/16-bit ranges", funcs=_DH),
     H("c10", "c10_hs_clientkeyexchange", bounds="16 B input, type 16 concrete, header fields symbolic", funcs=_DH),
     H("c10", "c10_hs_hello_verify_request", bounds="18 B input, type 3 concrete, header fields symbolic, cookie length symbolic", funcs=_DH + ["parse_dtls_hello_verify_request"]),
@@ -367,6 +370,7 @@ reg("C15",
     H("c15", "c15_server_hello_constructed", bounds="all scalar arguments symbolic; cipher id over all 65536 values", timeout=600,
       funcs=["TlsServerHelloContents::new", "get_version", "get_cipher"]),
     H("c15", "c15_dtls_client_hello_constructed", bounds="random 0..=34 B symbolic, <= 1 cipher", funcs=["impl ClientHello for DTLSClientHello"]),
+    H("c15", "c15_dtls_client_hello_parsed", bounds="DTLS ClientHello of concrete shape (1-byte cookie, 1 cipher, 1 compression), contents symbolic", funcs=["parse_dtls_message_handshake", "impl ClientHello for DTLSClientHello"]),
     H("c15", "c15_client_hello_parsed", bounds="45-byte ClientHello body of concrete shape (sid 2 B, 1 cipher, 1 compression), contents symbolic",
       funcs=["parse_tls_handshake_client_hello", "ClientHello accessors"]),
     )
